@@ -255,6 +255,9 @@ type boundsB struct {
 	// BothOrders: close every state with parent-first AND child-first fixpoint rounds (otherwise
 	// both only for states at depth <= 1, parent-first elsewhere).
 	BothOrders bool
+	// NoReparent: the history events exclude queue re-parenting (used for 4-queue trees in the
+	// quick tier, where every forest shape is an initial state anyway).
+	NoReparent bool
 }
 
 func enabledB(s *stateB, b *boundsB) []eventB {
@@ -284,6 +287,9 @@ func enabledB(s *stateB, b *boundsB) []eventB {
 				}
 			}
 		}
+	}
+	if b.NoReparent {
+		return ev
 	}
 	ps := s.parents()
 	for i := range s.Queues {
